@@ -42,6 +42,16 @@ def strConst? : Expr → Option String
   | .constant (.str s) _ => some s
   | _ => none
 
+/-- `is_indirect_parametrize_decorator`: a `parametrize(...)` call with an `indirect=` keyword
+    other than the constant `False` (only then its argument names can be fixtures). -/
+def isIndirectParametrize : Expr → Bool
+  | .call f _ kn kv _ =>
+    isParametrize f && (kwValues "indirect" kn kv).any (fun v =>
+      match v with
+      | .constant (.bool false) _ => false
+      | _ => true)
+  | _ => false
+
 /-- `extract_fixture_name_from_decorator`. -/
 def fixtureNameOf : Expr → Option String
   | .call f _ kn kv _ =>
@@ -121,15 +131,16 @@ def parametrizeIndirect : Expr → List (String × Range)
 /-! ### docstring.rs -/
 
 mutual
-  /-- `contains_yield` (note: no `AsyncWith`, `AsyncFor`, handler bodies — as in the code). -/
+  /-- `contains_yield` (since the repair it visits what `find_yield_in_stmt` visits: `async with`,
+      `async for` and `except` bodies too). -/
   def containsYieldStmt : Stmt → Bool
     | .expr (.yield _) _ => true
     | .expr (.yieldFrom _) _ => true
     | .if_ _ b o _ => containsYield b || containsYield o
-    | .for_ false _ _ b o _ => containsYield b || containsYield o
+    | .for_ _ _ _ b o _ => containsYield b || containsYield o
     | .while_ _ b o _ => containsYield b || containsYield o
-    | .with_ false _ _ b _ => containsYield b
-    | .try_ b _ o f _ => containsYield b || containsYield o || containsYield f
+    | .with_ _ _ _ b _ => containsYield b
+    | .try_ b h o f _ => containsYield b || containsYield h || containsYield o || containsYield f
     | _ => false
   def containsYield : List Stmt → Bool
     | [] => false
@@ -283,18 +294,25 @@ structure BodyScan where
   fnName : String
   fnLine : Nat
   declared : List String
-  /-- local bindings then module-level names (line 0); the LAST binding of a name wins. -/
+  /-- local bindings then module-level names (line 0); the FIRST (smallest-line) binding of a name counts. -/
   locals : List (String × Nat)
   refs : List NameRef
   deriving Repr, Inhabited
 
-def lookupLast (l : List (String × Nat)) (n : String) : Option Nat :=
-  (l.reverse.find? (fun p => p.1 == n)).map (·.2)
+/-- the line a name is first bound on: the smallest line among its bindings (`record_binding`
+    keeps the first binding; before the repair `HashMap::insert` kept the last) -/
+def minLine : Option Nat → List Nat → Option Nat
+  | acc, [] => acc
+  | none, x :: xs => minLine (some x) xs
+  | some a, x :: xs => minLine (some (min a x)) xs
+
+def lookupFirst (l : List (String × Nat)) (n : String) : Option Nat :=
+  minLine none ((l.filter (fun p => p.1 == n)).map (·.2))
 
 /-- `!declared.contains(name) && !is_local_var_in_scope` — the index-independent half. -/
 def BodyScan.candidate (b : BodyScan) (r : NameRef) : Bool :=
   !b.declared.contains r.name &&
-    !(match lookupLast b.locals r.name with
+    !(match lookupFirst b.locals r.name with
       | some dl => decide (dl < r.line)
       | none => false)
 
